@@ -25,6 +25,9 @@ func (f *Frame) operand(env map[ssa.Value]Val, v ssa.Value) Val {
 		return Val{Builtin: x.Name()}
 	}
 	if r, ok := env[v]; ok {
+		if r.Poison != "" {
+			ex.fail("%s", r.Poison)
+		}
 		return r
 	}
 	ex.fail("value %s (%T) not in environment of %s", v.Name(), v, f.fn.Name())
